@@ -122,14 +122,14 @@ impl MemoryManager {
     }
 
     pub fn get_token(&self) -> *const MemToken {
-        #[cfg(multiqueue2_verif_stubmm)]
+        #[cfg(all(multiqueue2_verif, multiqueue2_verif_stubmm))]
         return verif_access::stub_get_token(self);
         let mut inner = self.mem_manager.lock().unwrap();
         inner.get_token(self.epoch.load(Ordering::Acquire))
     }
 
     pub fn remove_token(&self, token: *const MemToken) {
-        #[cfg(multiqueue2_verif_stubmm)]
+        #[cfg(all(multiqueue2_verif, multiqueue2_verif_stubmm))]
         return verif_access::stub_remove_token(self, token);
         self.update_token(token);
         let mut inner = self.mem_manager.lock().unwrap();
@@ -154,7 +154,7 @@ impl MemoryManager {
 
     #[cold]
     pub fn free<T>(&self, pt: *mut T, num: usize) {
-        #[cfg(multiqueue2_verif_stubmm)]
+        #[cfg(all(multiqueue2_verif, multiqueue2_verif_stubmm))]
         return verif_access::stub_free(self, pt, num);
         let mut elemvec = self.wait_to_free.lock().unwrap();
         elemvec.push(ToFree::new(pt, num));
@@ -173,7 +173,7 @@ impl MemoryManager {
 
     #[cold]
     pub fn update_token(&self, val: *const MemToken) {
-        #[cfg(multiqueue2_verif_stubmm)]
+        #[cfg(all(multiqueue2_verif, multiqueue2_verif_stubmm))]
         return verif_access::stub_update_token(self, val);
         unsafe {
             let token = &*val;
